@@ -261,7 +261,7 @@ def real_key_text(key):
     """Canonical text of a real `Expr.key` tuple, same grammar as showKey in the driver."""
     if key[0] == "symbol" and len(key) == 3 and not isinstance(key[1], tuple):
         return "S:%s:%s" % (hx(key[1]), ty_text(real_type_struct(key[2])))
-    if key[0] == "z_constant" and len(key) == 3 and isinstance(key[1], tuple) and len(key[1]) == 2 and isinstance(key[1][1], str):
+    if key[0] == "z_constant" and len(key) == 3 and isinstance(key[1], tuple) and len(key[1]) in (2, 3) and isinstance(key[1][1], str):
         return "C:%s:(%s)" % (hx(key[1][1]), real_key_text(key[2]))
     return "O:%s:%s" % (key[0], ";".join(",".join(str(x) for x in t) if isinstance(t, tuple) else "!" + repr(t) for t in key[1:]))
 
